@@ -1349,6 +1349,8 @@ def build(tier='quick', seed=0):
     full.append(X(decl('string', 'String', sanitizers=[S('trim'), S('lowercase')], validators=[V('not_empty'), V('len_char_max', '12', 12, 'lit')],
                        derives=['Debug', 'Clone', 'PartialEq', 'Eq', 'PartialOrd', 'Ord', 'Hash', 'AsRef', 'Borrow', 'Deref', 'TryFrom', 'FromStr', 'Display'], tags=['via-macro']),
                   via_macro_ty=True))
+    full.append(X(decl('string', 'String', derives=['Debug', 'Clone', 'PartialEq', 'Eq', 'PartialOrd', 'Ord', 'Hash', 'AsRef', 'Borrow', 'Deref', 'From', 'FromStr', 'Display', 'Into'],
+                       tags=['via-macro']), via_macro_ty=True))
     full.append(X(decl('int', 'u16', validators=[V('less', '1000', 1000, 'lit')], derives=['Debug', 'Clone', 'Copy', 'PartialEq', 'TryFrom', 'FromStr', 'Arbitrary'], tags=['via-macro']),
                   via_macro_ty=True))
     full.append(X(decl('float', 'f64', validators=[V('finite'), V('greater_or_equal', '0.0', 0.0, 'lit')], derives=['Debug', 'Clone', 'Copy', 'PartialEq', 'Eq', 'PartialOrd', 'Ord', 'TryFrom'],
